@@ -92,3 +92,30 @@ package tchannel
 //@ func (c *Connection) getLastActivityWriteTime() (t time.Time)
 //@   effect nonblocking
 //@   property C05
+
+// The call path after connection acquisition: every wait is bounded by the
+// call's context (a select with a ctx.Done() case), or is on a non-blocking
+// lock class, or is a call of a bounded function.
+//@ func (mex *messageExchange) recvPeerFrame() (f *Frame, err error)
+//@   effect bounded
+//@   property C05
+
+//@ func (mex *messageExchange) recvPeerFrameOfType(msgType messageType) (f *Frame, err error)
+//@   effect bounded
+//@   property C05
+
+//@ func (mex *messageExchange) forwardPeerFrame(frame *Frame) (err error)
+//@   effect bounded
+//@   property C05
+
+//@ func (w *reqResWriter) flushFragment(fragment *writableFragment) (err error)
+//@   effect bounded
+//@   property C05
+
+//@ func (r *reqResReader) recvNextFragment(initial bool) (fragment *readableFragment, err error)
+//@   effect bounded
+//@   property C05
+
+//@ func (c *Connection) beginCall(ctx context.Context, serviceName, methodName string, callOptions *CallOptions) (call *OutboundCall, err error)
+//@   effect bounded
+//@   property C05
